@@ -944,10 +944,19 @@ fn partial_version<'s>(input: &mut &'s str) -> PResult<Partial, SemverParseError
     } else {
         (vec![], vec![])
     };
+    // Once a component is a wildcard everything after it is one too (`1.x.3`
+    // means `1.x.x`), and a qualifier after a wildcard has no meaning.
+    let minor = major.and(minor.flatten());
+    let patch = minor.and(patch.flatten());
+    let (pre, build) = if patch.is_some() {
+        (pre, build)
+    } else {
+        (vec![], vec![])
+    };
     Ok(Partial {
         major,
-        minor: minor.flatten(),
-        patch: patch.flatten(),
+        minor,
+        patch,
         pre_release: pre,
         build,
     })
